@@ -122,6 +122,7 @@ func (a *apiServer) createPool(name string, pfx netip.Prefix, disabled bool, ts 
 		},
 		Spec: v3.IPPoolSpec{CIDR: pfx.String(), Disabled: disabled},
 	}
+	p.Generation = 1
 	a.pools[name] = p
 	a.logPool(evAdd, p)
 	return p
